@@ -370,6 +370,8 @@ func (e *integEngine) posthoc(res *RunResult) {
 	x := e.computeExpect()
 	if e.prof.Checks["C06"] {
 		e.checkC06(x)
+		e.checkC01Integ(x)
+		e.checkC03Integ()
 	}
 	if e.prof.Checks["C07"] {
 		e.checkC07(x)
